@@ -310,8 +310,75 @@ func convPANOS(env *run.Env, g *genCase, o *convOutcome, changed, wantPrefixes b
 	pc.Device = dev.ConfigXML()
 	r2 := runPair(env, pc, false)
 	if r2.Exit != 0 || r2.Stdout != "" || !strings.Contains(r2.Stderr, "comp: device unchanged") {
-		o.Conv = &clause{"second-compare-not-clean:" + scriptShape(r2.Stdout), firstLines(r2.Stdout+r2.Stderr, 4)}
+		kind := "second-compare-not-clean:"
+		// Does the reported script change anything at all?
+		if r2.Exit == 0 && r2.Stdout != "" {
+			c := dev.Clone()
+			noop := true
+			for _, cmd := range strings.Split(strings.TrimSpace(r2.Stdout), "\n") {
+				action, xpath, element, where, dst, ok := mpan.ParseCommand(cmd)
+				if !ok || !strings.HasPrefix(c.Apply(action, xpath, element, where, dst), "accepted") {
+					noop = false
+					break
+				}
+			}
+			if noop && c.ConfigXML() == pc.Device {
+				kind = "second-compare-not-clean:no-op:"
+			}
+		}
+		shape := scriptShape(r2.Stdout)
+		if multi, clash := panosMultiGroup(g.Device, g.Files["router"]); multi {
+			// Lists that hold several address-groups (rules from raw
+			// files) are compared by the names of their members.
+			shape = "multi-group-list"
+			if clash {
+				shape += "+group-name-with-other-content-on-device"
+			}
+		}
+		o.Conv = &clause{kind + shape, firstLines(r2.Stdout+r2.Stderr, 4)}
 	}
+}
+
+var (
+	panGroupRE  = regexp.MustCompile(`<entry name="([^"]+)"><static>(.*?)</static>`)
+	panListRE   = regexp.MustCompile(`<(?:source|destination)>(.*?)</(?:source|destination)>`)
+	panMemberRE = regexp.MustCompile(`<member>([^<]*)</member>`)
+)
+
+// panosMultiGroup: does the target hold a source / destination list with
+// at least two address-groups, and is some group name defined on both
+// sides with different members?
+func panosMultiGroup(devXML, tgtXML string) (multi, clash bool) {
+	groups := func(x string) map[string]string {
+		m := map[string]string{}
+		for _, g := range panGroupRE.FindAllStringSubmatch(x, -1) {
+			var l []string
+			for _, mm := range panMemberRE.FindAllStringSubmatch(g[2], -1) {
+				l = append(l, mm[1])
+			}
+			sort.Strings(l)
+			m[g[1]] = strings.Join(l, ",")
+		}
+		return m
+	}
+	dg, tg := groups(devXML), groups(tgtXML)
+	for _, l := range panListRE.FindAllStringSubmatch(tgtXML, -1) {
+		n := 0
+		for _, mm := range panMemberRE.FindAllStringSubmatch(l[1], -1) {
+			if _, ok := tg[mm[1]]; ok {
+				n++
+			}
+		}
+		if n > 1 {
+			multi = true
+		}
+	}
+	for n, c := range tg {
+		if d, ok := dg[n]; ok && d != c {
+			clash = true
+		}
+	}
+	return
 }
 
 // scriptShape summarises a script by the sorted set of its command heads.
